@@ -46,10 +46,13 @@ structure Cfg where
   tempPfx : String
 deriving Repr
 
+/-- `strings.HasPrefix(s, p)` / an anchored-literal regexp alternative. -/
+def hasPrefix (s p : String) : Bool := p.toList.isPrefixOf s.toList
+
 /-- `IPVersionConfig.OwnsIPSet`. -/
-def Cfg.owns (c : Cfg) (name : String) : Bool := c.prefixes.any (fun p => name.startsWith p)
+def Cfg.owns (c : Cfg) (name : String) : Bool := c.prefixes.any (fun p => hasPrefix name p)
 /-- `IPVersionConfig.IsTempIPSetName`. -/
-def Cfg.isTemp (c : Cfg) (name : String) : Bool := name.startsWith c.tempPfx
+def Cfg.isTemp (c : Cfg) (name : String) : Bool := hasPrefix name c.tempPfx
 /-- `combineAndTrunc(mainSetNamePrefix, setID, MaxIPSetNameLength)` (ASCII names). -/
 def Cfg.mainName (c : Cfg) (setID : String) : String :=
   String.ofList ((c.mainPfx ++ setID).toList.take 31)
@@ -284,6 +287,12 @@ def createLine (target : String) (m : Meta) : Line :=
   if m.type == "bitmap:port" then .create target m.type 0 m.rangeMin m.rangeMax
   else .create target m.type m.maxSize 0 0
 
+/-- `needTempIPSet := dpExists && dpMeta != desiredMeta`. -/
+def needTemp (dpm : Option Meta) (dm : Meta) : Bool :=
+  match dpm with
+  | some x => x != dm
+  | none => false
+
 /-- `writeUpdates` for one set (write errors cannot happen in the model: the
 whole input is accepted and the *process* fails).  `ord` = visiting order of the
 member iterations.  Returns the new in-memory state and the lines written;
@@ -293,24 +302,20 @@ def Felix.writeUpdates (c : Cfg) (ord : List String → List String) (F : Felix)
   match F.desired.get name, F.members.get name with
   | some dm, some t =>
     let dpm := F.dp.get name
-    let needTemp := match dpm with | some x => x != dm | none => false
-    let needCreate := dpm.isNone
-    let (F, target, t) :=
-      if needTemp then
-        let (F, tmp) := Felix.nextFreeTemp c F (F.dp.length + 1)
-        (F, tmp, { t with dp := [] })
-      else (F, name, t)
-    let l0 := if needCreate || needTemp then [createLine target dm] else []
-    let dels := ord t.pendingDel
-    let adds := ord t.pendingAdd
-    let l1 := dels.map (fun m => Line.del target m)
-    let l2 := adds.map (fun m => Line.add target m)
-    let l3 := if needTemp then [Line.swap name target] else []
-    let t' : MT := { t with dp := adds.foldl sAdd (dels.foldl sErase t.dp) }
-    let F := { F with members := F.members.set name t' }
-    let F := if needTemp then { F with dp := F.dp.set target (dpm.getD Meta.zero) } else F
-    let F := if needCreate || needTemp then { F with dp := F.dp.set name dm } else F
-    some (F, l0 ++ l1 ++ l2 ++ l3)
+    if needTemp dpm dm then
+      -- metadata change: build a temporary set with the full desired contents, swap it in
+      let p := Felix.nextFreeTemp c F (F.dp.length + 1)
+      let adds := ord ({ t with dp := [] } : MT).pendingAdd
+      let F1 := { p.1 with members := p.1.members.set name { t with dp := adds.foldl sAdd [] } }
+      let F1 := { F1 with dp := (F1.dp.set p.2 (dpm.getD Meta.zero)).set name dm }
+      some (F1, [createLine p.2 dm] ++ adds.map (Line.add p.2) ++ [Line.swap name p.2])
+    else
+      -- in place: create if missing, then member deltas
+      let dels := ord t.pendingDel
+      let adds := ord t.pendingAdd
+      let F1 := { F with members := F.members.set name { t with dp := adds.foldl sAdd (dels.foldl sErase t.dp) } }
+      let F1 := if dpm.isNone then { F1 with dp := F1.dp.set name dm } else F1
+      some (F1, (if dpm.isNone then [createLine name dm] else []) ++ dels.map (Line.del name) ++ adds.map (Line.add name))
   | _, _ => none
 
 /-! ## The world: Felix + kernel + failure plan + order hints + command trace -/
@@ -412,36 +417,64 @@ def W.drain (w : W) : W × Bool :=
     let w := { w with F := { w.F with qBg := [] } }
     bg.foldl step (w, failed)
 
-/-- `tryResync` (+ `beginFullResync` / `beginBackgroundResync`). -/
+/-- What `beginFullResync` / `beginBackgroundResync` do with a successful listing. -/
+def Felix.afterListing (F : Felix) (listed : List String) (full : Bool) : Felix :=
+  if full then
+    let F := (sortS listed).foldl (fun F n => F.qAdd n true) F
+    let F := F.sweep listed
+    { F with bgReq := false }
+  else
+    let F := F.sweep listed
+    let F := (sortS listed).foldl (fun F n => F.qAdd n false) F
+    { F with bgReq := false }
+
+/-- `beginFullResync` (`full = true`) / `beginBackgroundResync`; `true` = the listing failed. -/
+def W.beginResync (w : W) (full : Bool) : W × Bool :=
+  let w0 : W := if full then { w with F := { w.F with qMust := [], qBg := [], dp := [] } } else w
+  match w0.listNames with
+  | (w1, none) => (w1, true)
+  | (w1, some listed) => ({ w1 with F := w1.F.afterListing listed full }, false)
+
+/-- `tryResync`. -/
 def W.tryResync (w : W) : W × Bool :=
-  if w.F.fullReq then
-    let w := { w with F := { w.F with qMust := [], qBg := [], dp := [] } }
-    let (w, l) := w.listNames
-    match l with
-    | none => (w, true)
-    | some listed =>
-      let F := (sortS listed).foldl (fun F n => F.qAdd n true) w.F
-      let F := F.sweep listed
-      { w with F := { F with bgReq := false } }.drain
-  else if w.F.bgReq then
-    let (w, l) := w.listNames
-    match l with
-    | none => (w, true)
-    | some listed =>
-      let F := w.F.sweep listed
-      let F := (sortS listed).foldl (fun F n => F.qAdd n false) F
-      { w with F := { F with bgReq := false } }.drain
+  if w.F.fullReq || w.F.bgReq then
+    match w.beginResync w.F.fullReq with
+    | (w1, true) => (w1, true)
+    | (w1, false) => w1.drain
   else w.drain
+
+def popBool : List Bool → Bool × List Bool
+  | [] => (false, [])
+  | b :: r => (b, r)
+
+/-- Would `ipset destroy <name>` succeed now? -/
+def W.destroyOk (w : W) (name : String) : Bool :=
+  !(popBool w.plan.destroys).1 && (match w.K.get name with | some k => !k.busy | none => false)
 
 /-- `ipset destroy <name>` (`deleteIPSet`); `true` = success. -/
 def W.destroy (w : W) (name : String) : W × Bool :=
-  let (fail, rest) := match w.plan.destroys with
-    | [] => (false, [])
-    | b :: r => (b, r)
-  let w := { w with plan := { w.plan with destroys := rest } }
-  let ok := !fail && (match w.K.get name with | some k => !k.busy | none => false)
-  let w := if ok then { w with K := w.K.erase name } else w
-  ({ w with trace := ("D:" ++ name ++ (if ok then ":ok" else ":f")) :: w.trace }, ok)
+  ({ w with
+      plan := { w.plan with destroys := (popBool w.plan.destroys).2 }
+      K := if w.destroyOk name then w.K.erase name else w.K
+      trace := ("D:" ++ name ++ (if w.destroyOk name then ":ok" else ":f")) :: w.trace },
+   w.destroyOk name)
+
+/-- The next destroy target named by the hint, if it is one of the candidates. -/
+def pickHint (h : Option String) (cands : List String) : Option String :=
+  match h with
+  | some x => if cands.contains x then some x else none
+  | none => none
+
+/-- Bookkeeping of `ApplyDeletions` after a successful destroy. -/
+def Felix.afterDestroy (F : Felix) (n : String) : Felix :=
+  let F := F.qRemove n
+  let F := if !F.allMeta.has n then { F with members := F.members.erase n }
+    else { F with members := F.members.set n { F.tracker n with dp := [] } }
+  { F with dp := F.dp.erase n }
+
+/-- Bookkeeping of `ApplyDeletions` after a failed destroy. -/
+def Felix.markDeleteFailed (F : Felix) (n : String) : Felix :=
+  { F with dp := F.dp.set n { ((F.dp.get n).getD Meta.zero) with deleteFailed := true } }
 
 def popHintD (w : W) : W × Option String :=
   match w.hintD with
@@ -458,11 +491,9 @@ def W.tryTempDeletions (w : W) : W :=
     | _, [], w => w
     | fuel + 1, cands, w =>
       let (w, h) := popHintD w
-      let n := match h with
-        | some h => if cands.contains h then h else ""
-        | none => ""
-      if n == "" then { w with badHint := true }
-      else
+      match pickHint h cands with
+      | none => { w with badHint := true }
+      | some n =>
         let (w, ok) := w.destroy n
         if ok then { w with F := { (w.F.qRemove n) with dp := w.F.dp.erase n } }
         else go fuel (sErase cands n) w
@@ -476,20 +507,12 @@ def W.applyDeletions (w : W) : W × Bool :=
     | _, [], w => (w, 0)
     | fuel + 1, cands, w =>
       let (w, h) := popHintD w
-      let n := match h with
-        | some h => if cands.contains h then h else ""
-        | none => ""
-      if n == "" then ({ w with badHint := true }, 0)
-      else
+      match pickHint h cands with
+      | none => ({ w with badHint := true }, 0)
+      | some n =>
         let (w, ok) := w.destroy n
-        if ok then
-          let F := w.F.qRemove n
-          let F := if !F.allMeta.has n then { F with members := F.members.erase n }
-            else { F with members := F.members.set n { F.tracker n with dp := [] } }
-          ({ w with F := { F with dp := F.dp.erase n } }, 1)
-        else
-          let m := (w.F.dp.get n).getD Meta.zero
-          go fuel (sErase cands n) { w with F := { w.F with dp := w.F.dp.set n { m with deleteFailed := true } } }
+        if ok then ({ w with F := w.F.afterDestroy n }, 1)
+        else go fuel (sErase cands n) { w with F := w.F.markDeleteFailed n }
   let (w, numDel) := go cands.length cands w
   if w.F.qLen > 0 then (w, true)
   else if numDel == 0 then (w, false)
@@ -513,34 +536,43 @@ def writeAll (c : Cfg) (ord : List String → List String) : Felix → List Stri
       | none => none
       | some (F, ls') => some (F, ls ++ ls')
 
+def popRPlan : List RPlan → RPlan × List RPlan
+  | [] => (RPlan.ok, [])
+  | r :: rs => (r, rs)
+
+/-- The order in which the dirty sets are written: the hint if it is a permutation of
+`dirty`, else a sorted order (and the hint is flagged). -/
+def W.pickOrder (w : W) (dirty : List String) : List String × W :=
+  match w.hintR with
+  | [] => (sortS dirty, { w with badHint := true })
+  | h :: r =>
+    if sameSet h dirty then (h, { w with hintR := r })
+    else (sortS dirty, { w with hintR := r, badHint := true })
+
+def linesToRun (rp : RPlan) (lines : List Line) : List Line :=
+  match rp with
+  | .failAt k => lines.take k
+  | _ => lines
+
+/-- One `ipset restore` session: write every group, let the kernel run the lines. -/
+def W.runRestore (w : W) (rp : RPlan) (order : List String) : W × Bool :=
+  match writeAll w.cfg sortS w.F order with
+  | none => ({ w with dead := true }, true)
+  | some (F, lines) =>
+    let r := krun w.K (linesToRun rp lines)
+    let success := r.2.2 && rp == RPlan.ok
+    let tr := "R[" ++ ";".intercalate (lines.map showLine) ++ "]" ++ (if success then "ok" else s!"f{r.2.1}")
+    if success then ({ w with K := r.1, F := { F with dirty := [] }, trace := tr :: w.trace }, false)
+    else ({ w with K := r.1, F := order.foldl (fun F n => F.qAdd n true) F, trace := tr :: w.trace }, true)
+
 /-- `tryUpdates`; returns `true` on error. -/
 def W.tryUpdates (w : W) (dirty : List String) : W × Bool :=
   if dirty.isEmpty then (w, false)
   else
-    let (rp, rest) := match w.plan.restores with
-      | [] => (RPlan.ok, [])
-      | r :: rs => (r, rs)
-    let w := { w with plan := { w.plan with restores := rest } }
-    match rp with
-    | .startFail => ({ w with trace := "S" :: w.trace }, true)
-    | _ =>
-      let (order, w) := match w.hintR with
-        | [] => (sortS dirty, { w with badHint := true })
-        | h :: r =>
-          if sameSet h dirty then (h, { w with hintR := r })
-          else (sortS dirty, { w with hintR := r, badHint := true })
-      match writeAll w.cfg sortS w.F order with
-      | none => ({ w with dead := true }, true)
-      | some (F, lines) =>
-        let toRun := match rp with
-          | .failAt k => lines.take k
-          | _ => lines
-        let (K, n, ok) := krun w.K toRun
-        let success := ok && rp == RPlan.ok
-        let tr := "R[" ++ ";".intercalate (lines.map showLine) ++ "]" ++ (if success then "ok" else s!"f{n}")
-        let w := { w with K := K, F := F, trace := tr :: w.trace }
-        if success then ({ w with F := { w.F with dirty := [] } }, false)
-        else ({ w with F := order.foldl (fun F n => F.qAdd n true) w.F }, true)
+    let rp := (popRPlan w.plan.restores).1
+    let w := { w with plan := { w.plan with restores := (popRPlan w.plan.restores).2 } }
+    if rp == RPlan.startFail then ({ w with trace := "S" :: w.trace }, true)
+    else (w.pickOrder dirty).2.runRestore rp (w.pickOrder dirty).1
 
 /-- The retry loop of `ApplyUpdates`.  `fuel` = attempts left, `att` = attempt number. -/
 def W.applyLoop : Nat → Nat → Bool → W → W × Bool
